@@ -691,6 +691,10 @@ func runC07Quote(c *Ctx) {
 					if prm, isParam := ld.X.(*ssa.Parameter); isParam && typeStr(prm.Type()) == "*Pos" {
 						copied = true
 					}
+					// the position read from the scalar itself (`p := *v.Pos`)
+					if f, _ := fieldLoad(ld.X); f == "String.Pos" {
+						copied = true
+					}
 				}
 			}
 		}
